@@ -1279,4 +1279,426 @@ theorem fmt6Loop_norun (src ws : List Nat) (best : Run) (i : Nat) (tp : List Nat
     subst this
     rw [htp, List.take_of_length_le (by omega)]
 
+theorem words_length (src : List Nat) : (words src).length = 8 := by simp [words]
+
+theorem words_bytes (src : List Nat) (hl : src.length = 16) (hb : ∀ b ∈ src, b < 256) :
+    (words src).flatMap wbytes = src := by
+  match src, hl with
+  | [b0, b1, b2, b3, b4, b5, b6, b7, b8, b9, b10, b11, b12, b13, b14, b15], _ =>
+    have h0 := hb b0 (by simp); have h1 := hb b1 (by simp); have h2 := hb b2 (by simp); have h3 := hb b3 (by simp)
+    have h4 := hb b4 (by simp); have h5 := hb b5 (by simp); have h6 := hb b6 (by simp); have h7 := hb b7 (by simp)
+    have h8 := hb b8 (by simp); have h9 := hb b9 (by simp); have h10 := hb b10 (by simp); have h11 := hb b11 (by simp)
+    have h12 := hb b12 (by simp); have h13 := hb b13 (by simp); have h14 := hb b14 (by simp); have h15 := hb b15 (by simp)
+    simp [words, List.range, List.range.loop, wbytes]
+    omega
+
+theorem getD_lt_of_all (src : List Nat) (hb : ∀ b ∈ src, b < 256) (j : Nat) : src.getD j 0 < 256 := by
+  rw [List.getD_eq_getElem?_getD]
+  cases h : src[j]? with
+  | none => simp
+  | some x => simpa using hb x (List.mem_of_getElem? h)
+
+/-- round trip for the addresses printed without "::" (no run of two or more zero words) -/
+theorem ntop6_pton6_norun (src : List Nat) (hl : src.length = 16) (hb : ∀ b ∈ src, b < 256)
+    (hrun : (bestRun (words src)).base = -1) :
+    ∃ t, ntop6Text src = .ok t ∧ pton6 t = some src := by
+  have hwl := words_length src
+  have hws : ∀ w ∈ words src, w < 65536 := by
+    intro w hw
+    obtain ⟨j, hj, rfl⟩ := List.getElem_of_mem hw
+    have := words_lt src (getD_lt_of_all src hb) j
+    simpa [List.getD_eq_getElem?_getD, List.getElem?_eq_getElem hj] using this
+  refine ⟨joinX (words src), ?_, ?_⟩
+  · unfold ntop6Text
+    simp only [fmt6Loop_norun src (words src) _ 0 [] hrun hwl (by omega) (by simp [joinX])]
+    rw [if_neg (by rw [hrun]; simp)]
+  · apply pton6_complete
+    have hne : words src ≠ [] := by intro h; rw [h] at hwl; simp at hwl
+    have := hexSeq_groupSeq (hexSeq_joinX (words src) hne hws)
+    rw [words_bytes src hl hb] at this
+    exact Ipv6Text.full this hl
+
+/-! ### the best-zero-run scan -/
+
+/-- `r` is no run, or a run of `≥ m` zero words inside `[0, n)` -/
+def ZRun (ws : List Nat) (r : Run) (m : Int) (n : Nat) : Prop :=
+  r.base = -1 ∨ (0 ≤ r.base ∧ m ≤ r.len ∧ r.base + r.len ≤ n ∧
+    ∀ j : Nat, r.base ≤ j → (j : Int) < r.base + r.len → ws.getD j 0 = 0)
+
+def ScanInv (ws : List Nat) (n : Nat) (st : Run × Run) : Prop :=
+  ZRun ws st.1 1 n ∧ ZRun ws st.2 1 n ∧ (st.2.base ≠ -1 → st.2.base + st.2.len = n)
+
+theorem scanStep_inv (ws : List Nat) (n : Nat) (st : Run × Run) (h : ScanInv ws n st) :
+    ScanInv ws (n + 1) (scanStep ws st n) := by
+  obtain ⟨hb, hc, hce⟩ := h
+  unfold scanStep
+  by_cases hz : ws.getD n 0 = 0
+  · rw [if_pos hz]
+    by_cases hcb : st.2.base = -1
+    · rw [if_pos hcb]
+      refine ⟨?_, ?_, ?_⟩
+      · rcases hb with hb | ⟨h1, h2, h3, h4⟩
+        · exact Or.inl hb
+        · exact Or.inr ⟨h1, h2, by push_cast; omega, h4⟩
+      · refine Or.inr ⟨by simp, by simp, by simp, ?_⟩
+        intro j hj1 hj2
+        have : j = n := by simp at hj1 hj2; omega
+        rw [this]; exact hz
+      · intro _; simp
+    · rw [if_neg hcb]
+      have hce' := hce hcb
+      rcases hc with hc | ⟨h1, h2, h3, h4⟩
+      · exact absurd hc hcb
+      refine ⟨?_, ?_, ?_⟩
+      · rcases hb with hb | ⟨g1, g2, g3, g4⟩
+        · exact Or.inl hb
+        · exact Or.inr ⟨g1, g2, by push_cast; omega, g4⟩
+      · refine Or.inr ⟨h1, by simp; omega, by simp; push_cast; omega, ?_⟩
+        intro j hj1 hj2
+        simp at hj1 hj2
+        by_cases hjn : j = n
+        · rw [hjn]; exact hz
+        · exact h4 j hj1 (by omega)
+      · intro _; simp; push_cast; omega
+  · rw [if_neg hz]
+    by_cases hcb : st.2.base = -1
+    · rw [if_neg (by simpa using hcb)]
+      refine ⟨?_, Or.inl hcb, fun h => absurd hcb h⟩
+      rcases hb with hb | ⟨g1, g2, g3, g4⟩
+      · exact Or.inl hb
+      · exact Or.inr ⟨g1, g2, by push_cast; omega, g4⟩
+    · rw [if_pos hcb]
+      refine ⟨?_, Or.inl rfl, fun h => absurd rfl h⟩
+      have hcz : ZRun ws st.2 1 (n + 1) := by
+        rcases hc with hc | ⟨h1, h2, h3, h4⟩
+        · exact Or.inl hc
+        · exact Or.inr ⟨h1, h2, by push_cast; omega, h4⟩
+      have hbz : ZRun ws st.1 1 (n + 1) := by
+        rcases hb with hb | ⟨g1, g2, g3, g4⟩
+        · exact Or.inl hb
+        · exact Or.inr ⟨g1, g2, by push_cast; omega, g4⟩
+      split
+      · exact hcz
+      · exact hbz
+
+theorem dropShort_spec (ws : List Nat) (b : Run) (hm : ZRun ws b 1 8) :
+    ZRun ws (if b.base ≠ -1 ∧ b.len < 2 then ⟨-1, b.len⟩ else b) 2 8 := by
+  split
+  · exact Or.inl rfl
+  · rename_i hne
+    rcases hm with hm | ⟨g1, g2, g3, g4⟩
+    · exact Or.inl hm
+    · exact Or.inr ⟨g1, by omega, g3, g4⟩
+
+theorem finishScan_spec (ws : List Nat) (st : Run × Run) (hb : ZRun ws st.1 1 8) (hc : ZRun ws st.2 1 8) :
+    ZRun ws (finishScan st) 2 8 := by
+  have hm : ZRun ws (if st.2.base ≠ -1 then (if st.1.base = -1 ∨ st.2.len > st.1.len then st.2 else st.1) else st.1) 1 8 := by
+    split
+    · split
+      · exact hc
+      · exact hb
+    · exact hb
+  exact dropShort_spec ws _ hm
+
+theorem bestRun_spec (ws : List Nat) : ZRun ws (bestRun ws) 2 8 := by
+  have h0 : ScanInv ws 0 (⟨-1, 0⟩, ⟨-1, 0⟩) := ⟨Or.inl rfl, Or.inl rfl, fun h => absurd rfl h⟩
+  have h1 := scanStep_inv ws 0 _ h0
+  have h2 := scanStep_inv ws 1 _ h1
+  have h3 := scanStep_inv ws 2 _ h2
+  have h4 := scanStep_inv ws 3 _ h3
+  have h5 := scanStep_inv ws 4 _ h4
+  have h6 := scanStep_inv ws 5 _ h5
+  have h7 := scanStep_inv ws 6 _ h6
+  have h8 := scanStep_inv ws 7 _ h7
+  have hr : (List.range 8).foldl (scanStep ws) (⟨-1, 0⟩, ⟨-1, 0⟩) = _ :=
+    show [0, 1, 2, 3, 4, 5, 6, 7].foldl (scanStep ws) (⟨-1, 0⟩, ⟨-1, 0⟩) = _ from rfl
+  unfold bestRun
+  rw [hr]
+  simp only [List.foldl]
+  exact finishScan_spec ws _ h8.1 h8.2.1
+
+/-- where the format loop stands before iteration `i` when the run `[b, b+n)` is compressed -/
+def Phase (ws : List Nat) (b n i : Nat) (tp : List Nat) : Prop :=
+  (i ≤ b ∧ tp = joinX (ws.take i)) ∨
+  (b < i ∧ i ≤ b + n ∧ tp = joinX (ws.take b) ++ [58]) ∨
+  (b + n < i ∧ tp = joinX (ws.take b) ++ 58 :: 58 :: joinX ((ws.take i).drop (b + n)))
+
+theorem getD_eq_getElem' (ws : List Nat) (i : Nat) (h : i < ws.length) : ws.getD i 0 = ws[i] := by
+  simp [List.getD_eq_getElem?_getD, List.getElem?_eq_getElem h]
+
+theorem take_ne_nil (ws : List Nat) (i : Nat) (hlen : ws.length = 8) (hi : 0 < i) : ws.take i ≠ [] := by
+  intro h'; have := congrArg List.length h'; simp [List.length_take, hlen] at this; omega
+
+/-- the format loop with a compressed run and no embedded IPv4 -/
+theorem fmt6Loop_run (src ws : List Nat) (best : Run) (b n : Nat) (i : Nat) (tp : List Nat)
+    (hb : best.base = b) (hn : best.len = n) (hn2 : 2 ≤ n) (hbn : b + n ≤ 8) (hlen : ws.length = 8)
+    (hnv : ¬ (b = 0 ∧ (n = 6 ∨ (n = 5 ∧ ws.getD 5 0 = 0xffff))))
+    (hi : i ≤ 8) (hp : Phase ws b n i tp) :
+    fmt6Loop src ws best i tp =
+      .ok (if b + n = 8 then joinX (ws.take b) ++ [58]
+           else joinX (ws.take b) ++ 58 :: 58 :: joinX (ws.drop (b + n))) := by
+  fun_induction fmt6Loop src ws best i tp
+  · -- inside the run
+    rename_i i tp h8 hrun ih
+    obtain ⟨_, h1, h2⟩ := hrun
+    rw [hb] at h1; rw [hb, hn] at h2
+    apply ih (by omega)
+    by_cases hib : i = b
+    · subst hib
+      rw [hb, dif_pos rfl]
+      rcases hp with ⟨_, rfl⟩ | ⟨h, _⟩ | ⟨h, _⟩
+      · exact Or.inr (Or.inl ⟨by omega, by omega, rfl⟩)
+      · omega
+      · omega
+    · rw [hb, dif_neg (by omega)]
+      rcases hp with ⟨h, _⟩ | ⟨_, _, rfl⟩ | ⟨h, _⟩
+      · omega
+      · exact Or.inr (Or.inl ⟨by omega, by omega, rfl⟩)
+      · omega
+  · -- embedded IPv4: excluded
+    rename_i i tp h8 hrun hv4
+    obtain ⟨rfl, hb0, hc⟩ := hv4
+    rw [hb0] at hb
+    have hb' : b = 0 := by omega
+    rw [hn] at hrun hc
+    exfalso; apply hnv
+    refine ⟨hb', ?_⟩
+    rcases hc with h | ⟨h, _⟩ | ⟨h, h'⟩
+    · left; omega
+    · exfalso; apply hrun; rw [hb0]; refine ⟨by simp, by simp, by omega⟩
+    · right; exact ⟨by omega, h'⟩
+  · -- a hex group
+    rename_i i tp h8 hrun hv4 ih
+    rw [hb, hn] at hrun
+    have hout : i < b ∨ b + n ≤ i := by
+      by_cases h : i < b
+      · exact Or.inl h
+      · right
+        false_or_by_contra
+        apply hrun
+        refine ⟨by omega, by omega, by omega⟩
+    have hget := getD_eq_getElem' ws i (by omega)
+    have htk : ws.take (i + 1) = ws.take i ++ [ws[i]] := List.take_succ_eq_append_getElem (by omega)
+    apply ih (by omega)
+    rcases hout with hlt | hge
+    · rcases hp with ⟨_, rfl⟩ | ⟨h, _⟩ | ⟨h, _⟩
+      · left
+        refine ⟨by omega, ?_⟩
+        rw [htk, hget]
+        by_cases h0 : i = 0
+        · subst h0; simp [colon, joinX]
+        · rw [joinX_snoc _ _ (take_ne_nil ws i hlen (by omega))]
+          simp [colon, h0]
+      · omega
+      · omega
+    · have h0 : i ≠ 0 := by omega
+      rcases hp with ⟨h, _⟩ | ⟨_, h, rfl⟩ | ⟨h, rfl⟩
+      · omega
+      · right; right
+        have hi' : i = b + n := by omega
+        refine ⟨by omega, ?_⟩
+        rw [htk, hget, List.drop_append_of_le_length (by simp [List.length_take, hlen]; omega)]
+        have : (ws.take i).drop (b + n) = [] := by
+          apply List.drop_of_length_le; simp [List.length_take, hlen]; omega
+        rw [this]
+        simp [colon, h0, joinX]
+      · right; right
+        refine ⟨by omega, ?_⟩
+        rw [htk, hget, List.drop_append_of_le_length (by simp [List.length_take, hlen]; omega)]
+        rw [joinX_snoc _ _ (by
+          intro h'; have := congrArg List.length h'; simp [List.length_take, hlen] at this; omega)]
+        simp [colon, h0]
+  · rename_i i tp h8
+    have : i = 8 := by omega
+    subst this
+    rcases hp with ⟨h, _⟩ | ⟨_, h, rfl⟩ | ⟨h, rfl⟩
+    · omega
+    · rw [if_pos (by omega)]
+    · rw [if_neg (by omega), List.take_of_length_le (show ws.length ≤ 8 by omega)]
+
+theorem flatMap_wbytes_len (l : List Nat) : (l.flatMap wbytes).length = 2 * l.length := by
+  induction l with
+  | nil => simp
+  | cons a t ih => simp [List.flatMap_cons, wbytes_len, ih]; omega
+
+theorem flatMap_wbytes_zero (n : Nat) : (List.replicate n 0).flatMap wbytes = List.replicate (2 * n) 0 := by
+  induction n with
+  | zero => simp
+  | succ n ih =>
+    rw [List.replicate_succ, List.flatMap_cons, ih, show 2 * (n + 1) = (2 * n) + 1 + 1 by omega,
+      List.replicate_succ, List.replicate_succ]
+    simp [wbytes]
+
+theorem run_zero_decomp (ws : List Nat) (b n : Nat) (hbn : b + n ≤ ws.length)
+    (hz : ∀ j, b ≤ j → j < b + n → ws.getD j 0 = 0) :
+    ws = ws.take b ++ List.replicate n 0 ++ ws.drop (b + n) := by
+  have h1 : (ws.drop b).take n = List.replicate n 0 := by
+    apply List.ext_getElem
+    · simp; omega
+    · intro i h1 h2
+      simp at h1 h2 ⊢
+      have := hz (b + i) (by omega) (by omega)
+      rwa [getD_eq_getElem' ws (b + i) (by omega)] at this
+  conv => lhs; rw [← List.take_append_drop b ws, ← List.take_append_drop n (ws.drop b), h1, List.drop_drop]
+  simp [List.append_assoc]
+
+theorem words_all_lt (src : List Nat) (hb : ∀ b ∈ src, b < 256) : ∀ w ∈ words src, w < 65536 := by
+  intro w hw
+  obtain ⟨j, hj, rfl⟩ := List.getElem_of_mem hw
+  have := words_lt src (getD_lt_of_all src hb) j
+  simpa [List.getD_eq_getElem?_getD, List.getElem?_eq_getElem hj] using this
+
+/-- round trip when a zero run is compressed and no IPv4 form is used -/
+theorem ntop6_pton6_run (src : List Nat) (hl : src.length = 16) (hby : ∀ x ∈ src, x < 256) (b n : Nat)
+    (hb : (bestRun (words src)).base = b) (hn : (bestRun (words src)).len = n) (hn2 : 2 ≤ n) (hbn : b + n ≤ 8)
+    (hz : ∀ j, b ≤ j → j < b + n → (words src).getD j 0 = 0)
+    (hnv : ¬ (b = 0 ∧ (n = 6 ∨ (n = 5 ∧ (words src).getD 5 0 = 0xffff)))) :
+    ∃ t, ntop6Text src = .ok t ∧ pton6 t = some src := by
+  have hwl := words_length src
+  have hws := words_all_lt src hby
+  refine ⟨joinX ((words src).take b) ++ 58 :: 58 :: joinX ((words src).drop (b + n)), ?_, ?_⟩
+  · unfold ntop6Text
+    simp only [fmt6Loop_run src (words src) _ b n 0 [] hb hn hn2 hbn hwl hnv (by omega)
+      (Or.inl ⟨by omega, by simp [joinX]⟩)]
+    rw [hb, hn]
+    by_cases h8 : b + n = 8
+    · rw [if_pos h8, if_pos ⟨by omega, by omega⟩]
+      have : (words src).drop (b + n) = [] := List.drop_of_length_le (by omega)
+      simp [this, joinX]
+    · rw [if_neg h8, if_neg (by omega)]
+  · apply pton6_complete
+    have hval : ((words src).take b).flatMap wbytes ++
+        List.replicate (16 - ((((words src).take b).flatMap wbytes).length + (((words src).drop (b + n)).flatMap wbytes).length)) 0 ++
+        ((words src).drop (b + n)).flatMap wbytes = src := by
+      have hd := run_zero_decomp (words src) b n (by omega) hz
+      have : 16 - ((((words src).take b).flatMap wbytes).length + (((words src).drop (b + n)).flatMap wbytes).length) = 2 * n := by
+        rw [flatMap_wbytes_len, flatMap_wbytes_len]; simp [List.length_take, List.length_drop, hwl]; omega
+      rw [this, ← flatMap_wbytes_zero, ← List.flatMap_append, ← List.flatMap_append, ← hd]
+      exact words_bytes src hl hby
+    have hI := @Ipv6Text.compressed (joinX ((words src).take b)) (((words src).take b).flatMap wbytes)
+      (joinX ((words src).drop (b + n))) (((words src).drop (b + n)).flatMap wbytes) ?_ ?_ ?_
+    · rw [hval] at hI; exact hI
+    · by_cases h0 : b = 0
+      · left; simp [h0, joinX]
+      · right
+        exact hexSeq_joinX _ (take_ne_nil (words src) b hwl (by omega)) (fun w hw => hws w (List.mem_of_mem_take hw))
+    · by_cases h8 : b + n = 8
+      · left
+        have : (words src).drop (b + n) = [] := List.drop_of_length_le (by omega)
+        simp [this, joinX]
+      · right
+        apply hexSeq_groupSeq
+        apply hexSeq_joinX
+        · intro h'; have := congrArg List.length h'; simp [hwl] at this; omega
+        · exact fun w hw => hws w (List.mem_of_mem_drop hw)
+    · rw [flatMap_wbytes_len, flatMap_wbytes_len]; simp [List.length_take, List.length_drop, hwl]; omega
+
+theorem fmt6Loop_v4_6 (src ws : List Nat) (best : Run) (hb : best.base = 0) (hn : best.len = 6) :
+    fmt6Loop src ws best 0 [] = .ok (58 :: 58 :: fmt4 (src.drop 12)) := by
+  obtain ⟨bb, bl⟩ := best
+  simp at hb hn; subst hb hn
+  simp [fmt6Loop, colon, embedV4_spec]
+
+theorem fmt6Loop_v4_5 (src ws : List Nat) (best : Run) (hb : best.base = 0) (hn : best.len = 5)
+    (h5 : ws.getD 5 0 = 0xffff) :
+    fmt6Loop src ws best 0 [] = .ok (58 :: 58 :: (fmtX16 0xffff ++ 58 :: fmt4 (src.drop 12))) := by
+  obtain ⟨bb, bl⟩ := best
+  simp at hb hn; subst hb hn
+  simp at h5
+  simp [fmt6Loop, colon, h5, fmtX16, hexDigit]
+  rw [embedV4_spec _ _ (by simp)]
+  simp
+
+theorem words_zero_bytes (src : List Nat) (j : Nat) (hj : j < 8) (h : (words src).getD j 0 = 0) :
+    src.getD (2 * j) 0 = 0 ∧ src.getD (2 * j + 1) 0 = 0 := by
+  rw [words_getD, if_pos hj] at h
+  omega
+
+theorem list16 (src : List Nat) (hl : src.length = 16) :
+    ∃ b0 b1 b2 b3 b4 b5 b6 b7 b8 b9 b10 b11 b12 b13 b14 b15,
+      src = [b0, b1, b2, b3, b4, b5, b6, b7, b8, b9, b10, b11, b12, b13, b14, b15] := by
+  match src, hl with
+  | [b0, b1, b2, b3, b4, b5, b6, b7, b8, b9, b10, b11, b12, b13, b14, b15], _ =>
+    exact ⟨b0, b1, b2, b3, b4, b5, b6, b7, b8, b9, b10, b11, b12, b13, b14, b15, rfl⟩
+
+/-- round trip, IPv4-compatible form `::a.b.c.d` -/
+theorem ntop6_pton6_v4compat (src : List Nat) (hl : src.length = 16) (hby : ∀ x ∈ src, x < 256)
+    (hb : (bestRun (words src)).base = 0) (hn : (bestRun (words src)).len = 6)
+    (hz : ∀ j, j < 6 → (words src).getD j 0 = 0) :
+    ∃ t, ntop6Text src = .ok t ∧ pton6 t = some src := by
+  refine ⟨58 :: 58 :: fmt4 (src.drop 12), ?_, ?_⟩
+  · unfold ntop6Text
+    simp only [fmt6Loop_v4_6 src (words src) _ hb hn]
+    rw [hb, hn, if_neg (by omega)]
+  · apply pton6_complete
+    obtain ⟨b0, b1, b2, b3, b4, b5, b6, b7, b8, b9, b10, b11, b12, b13, b14, b15, rfl⟩ := list16 src hl
+    · have z0 := words_zero_bytes _ 0 (by omega) (hz 0 (by omega))
+      have z1 := words_zero_bytes _ 1 (by omega) (hz 1 (by omega))
+      have z2 := words_zero_bytes _ 2 (by omega) (hz 2 (by omega))
+      have z3 := words_zero_bytes _ 3 (by omega) (hz 3 (by omega))
+      have z4 := words_zero_bytes _ 4 (by omega) (hz 4 (by omega))
+      have z5 := words_zero_bytes _ 5 (by omega) (hz 5 (by omega))
+      simp at z0 z1 z2 z3 z4 z5
+      obtain ⟨rfl, rfl⟩ := z0; obtain ⟨rfl, rfl⟩ := z1; obtain ⟨rfl, rfl⟩ := z2
+      obtain ⟨rfl, rfl⟩ := z3; obtain ⟨rfl, rfl⟩ := z4; obtain ⟨rfl, rfl⟩ := z5
+      have q : DottedQuad (fmt4 [b12, b13, b14, b15]) [b12, b13, b14, b15] :=
+        (dottedQuad_iff _ _).2 ⟨b12, b13, b14, b15, by have := hby b12 (by simp); omega,
+          by have := hby b13 (by simp); omega, by have := hby b14 (by simp); omega,
+          by have := hby b15 (by simp); omega, rfl, rfl⟩
+      have := @Ipv6Text.compressed [] [] _ _ (Or.inl ⟨rfl, rfl⟩) (Or.inr (GroupSeq.quad q)) (by simp)
+      simpa using this
+
+/-- round trip, IPv4-mapped form `::ffff:a.b.c.d` -/
+theorem ntop6_pton6_v4mapped (src : List Nat) (hl : src.length = 16) (hby : ∀ x ∈ src, x < 256)
+    (hb : (bestRun (words src)).base = 0) (hn : (bestRun (words src)).len = 5)
+    (hz : ∀ j, j < 5 → (words src).getD j 0 = 0) (h5 : (words src).getD 5 0 = 0xffff) :
+    ∃ t, ntop6Text src = .ok t ∧ pton6 t = some src := by
+  refine ⟨58 :: 58 :: (fmtX16 0xffff ++ 58 :: fmt4 (src.drop 12)), ?_, ?_⟩
+  · unfold ntop6Text
+    simp only [fmt6Loop_v4_5 src (words src) _ hb hn h5]
+    rw [hb, hn, if_neg (by omega)]
+  · apply pton6_complete
+    obtain ⟨b0, b1, b2, b3, b4, b5, b6, b7, b8, b9, b10, b11, b12, b13, b14, b15, rfl⟩ := list16 src hl
+    · have z0 := words_zero_bytes _ 0 (by omega) (hz 0 (by omega))
+      have z1 := words_zero_bytes _ 1 (by omega) (hz 1 (by omega))
+      have z2 := words_zero_bytes _ 2 (by omega) (hz 2 (by omega))
+      have z3 := words_zero_bytes _ 3 (by omega) (hz 3 (by omega))
+      have z4 := words_zero_bytes _ 4 (by omega) (hz 4 (by omega))
+      simp at z0 z1 z2 z3 z4
+      obtain ⟨rfl, rfl⟩ := z0; obtain ⟨rfl, rfl⟩ := z1; obtain ⟨rfl, rfl⟩ := z2
+      obtain ⟨rfl, rfl⟩ := z3; obtain ⟨rfl, rfl⟩ := z4
+      have h10 := hby b10 (by simp)
+      have h11 := hby b11 (by simp)
+      rw [words_getD, if_pos (by omega)] at h5
+      simp at h5
+      have e10 : b10 = 255 := by omega
+      have e11 : b11 = 255 := by omega
+      subst e10 e11
+      have q : DottedQuad (fmt4 [b12, b13, b14, b15]) [b12, b13, b14, b15] :=
+        (dottedQuad_iff _ _).2 ⟨b12, b13, b14, b15, by have := hby b12 (by simp); omega,
+          by have := hby b13 (by simp); omega, by have := hby b14 (by simp); omega,
+          by have := hby b15 (by simp); omega, rfl, rfl⟩
+      have := @Ipv6Text.compressed [] [] _ _ (Or.inl ⟨rfl, rfl⟩)
+        (Or.inr (GroupSeq.cons (fmtX16_isH16 0xffff (by omega)) (GroupSeq.quad q))) (by simp [wbytes_len])
+      simpa [wbytes] using this
+
+/-- `inet_pton6 (inet_ntop6 a) = a` for every 16-byte address -/
+theorem ntop6_pton6_all (src : List Nat) (hl : src.length = 16) (hby : ∀ x ∈ src, x < 256) :
+    ∃ t, ntop6Text src = .ok t ∧ pton6 t = some src := by
+  rcases bestRun_spec (words src) with hno | ⟨h0, h2, h3, hz⟩
+  · exact ntop6_pton6_norun src hl hby hno
+  · obtain ⟨b, hb⟩ := Int.eq_ofNat_of_zero_le h0
+    obtain ⟨n, hn⟩ := Int.eq_ofNat_of_zero_le (show 0 ≤ (bestRun (words src)).len by omega)
+    have hz' : ∀ j, b ≤ j → j < b + n → (words src).getD j 0 = 0 := by
+      intro j h1 h2'; exact hz j (by omega) (by omega)
+    by_cases hv : b = 0 ∧ (n = 6 ∨ (n = 5 ∧ (words src).getD 5 0 = 0xffff))
+    · obtain ⟨rfl, h6 | ⟨h5, hf⟩⟩ := hv
+      · subst h6
+        exact ntop6_pton6_v4compat src hl hby (by simpa using hb) (by simpa using hn)
+          (fun j hj => hz' j (by omega) (by omega))
+      · subst h5
+        exact ntop6_pton6_v4mapped src hl hby (by simpa using hb) (by simpa using hn)
+          (fun j hj => hz' j (by omega) (by omega)) hf
+    · exact ntop6_pton6_run src hl hby b n hb hn (by omega) (by omega) hz' hv
+
 end UvModel.Inet
